@@ -543,6 +543,49 @@ def rtc_wrapper_history(case_names, tier):
     return rec.obligations()
 
 
+def rtc_method_history(tier):
+    """One operator object asked for the same factorization with DIFFERENT arguments in sequence (a rank-limited Lanczos
+    diagonalization / root first, then a direct method, and the other way round): every answer must factorize the operator
+    with the method that was asked for - a result memoized for other arguments must not be handed back."""
+    from contracts.rtc_common import Recorder
+    from contracts import rtc_C04
+    H = rtc_C04.helpers()
+    torch, zoo, O = H.torch, H.zoo, H.O
+    from linear_operator import settings
+    f64 = torch.float64
+    rec = Recorder(PID)
+    names = ["dense_psd", "toeplitz", "kron2", "sum", "constmul", "psdsum", "blockdiag"]
+    for name in names:
+        case = zoo.BY_NAME[name]
+        for batch in ((), (2,), (3, 2)) if tier != "quick" else ((), (2,)):
+            for n in (8, 12) if tier != "quick" else (8,):
+                for order in ("lanczos_first", "direct_first"):
+                    try:
+                        op, D = case.build(zoo.gen(21), f64, batch, n)
+                    except Exception:  # noqa
+                        continue
+                    N = D.shape[-1]
+                    lab = f"{name}|float64|b={batch}|n={N}|order={order}"
+
+                    def direct(tag):
+                        ev, Q = op.diagonalization(method="symeig")
+                        Qd = Q.to_dense() if hasattr(Q, "to_dense") else Q
+                        okk = ev.shape[-1] == N and Qd.shape[-1] == N and float(((Qd * ev.unsqueeze(-2)) @ Qd.mT - D).abs().max()) <= 1e-8 * max(1.0, float(D.abs().max()))
+                        rec.check(f"method_history[diagonalization(symeig)]/{name}", f"{lab}|{tag}", okk, f"diagonalization(method='symeig') returned {ev.shape[-1]} eigenpairs of an {N} x {N} operator / Q diag(w) Q^T differs from A")
+                        R = op.root_decomposition(method="symeig").root.to_dense()
+                        rec.check(f"method_history[root_decomposition(symeig)]/{name}", f"{lab}|{tag}", float((R @ R.mT - D).abs().max()) <= 1e-8 * max(1.0, float(D.abs().max())), "root_decomposition(method='symeig'): R R^T differs from A")
+                    try:
+                        if order == "direct_first":
+                            direct("before")
+                        with settings.max_root_decomposition_size(3):
+                            op.diagonalization(method="lanczos")
+                            op.root_decomposition(method="lanczos")
+                        direct("after a rank-3 lanczos call on the same object")
+                    except Exception as ex:  # noqa
+                        rec.check(f"method_history[diagonalization(symeig)]/{name}", lab, False, f"raised {type(ex).__name__}: {ex}"[:300])
+    return rec.obligations()
+
+
 def _chunks(names, k):
     return [names[i:i + k] for i in range(0, len(names), k)]
 
@@ -557,6 +600,7 @@ def rtc_units(tier):
         us.append(Unit(f"C06/rtc/default_dtype[{ch[0]}..{ch[-1]}]", mod, "rtc_default_dtype", (ch, tier), engine="rtc", timeout_s=1500))
     for ch in _chunks(HIST_BASES, 5):
         us.append(Unit(f"C06/rtc/wrapper_history[{','.join(ch)}]", mod, "rtc_wrapper_history", (ch, tier), engine="rtc", timeout_s=1500))
+    us.append(Unit("C06/rtc/method_history", mod, "rtc_method_history", (tier,), engine="rtc", timeout_s=900))
     return us
 
 
